@@ -253,7 +253,7 @@ class Rewriter:
         t = s('R1.PathT', r'\bPath\s*<\s*T\s*>', 'PathT', t)
         t = s('R1.PathT', r'\bPaths\s*<\s*T\s*>', 'PathsT', t)
         t = s('R12.itertype', r'\b(?:typename\s+)?(?:Path64|PathD|PathT|Path\s*<\s*\w+\s*>|Paths64|PathsD|PathsT)\s*::\s*(?:const_)?iterator\b', 'size_t', t)
-        t = s('R12.itertype', r'\b(?:typename\s+)?(?:Path64|PathD|PathT|Path\s*<\s*\w+\s*>)\s*::\s*size_type\b', 'size_t', t)
+        t = s('R12.itertype', r'\b(?:typename\s+)?(?:Paths?64|Paths?D|Paths?T|Paths?\s*<\s*\w+\s*>)\s*::\s*size_type\b', 'size_t', t)
         return t
 
     def vectors(self, t, names):
@@ -285,6 +285,44 @@ class Rewriter:
                 t = s('R12.iter', r'\*\s*\(\s*' + it + r'\s*([+-])\s*(\w+)\s*\)', cont + '.data[' + it + r' \1 \2]', t)
                 t = s('R12.iter', r'\*\s*' + I, cont + '.data[' + it + ']', t)
                 t = s('R12.iter', I + r'\s*->', cont + '.data[' + it + '].', t)
+        return t
+
+    def rangefor(self, t):
+        """R13: `for ([const] T[&] x : cont) body` -> index loop; uses of x in the body -> cont.data[vf_i_x]."""
+        pat = re.compile(r'\bfor\s*\(\s*(const\s+)?[\w:<>]+\s*([&*]*)\s*(\w+)\s*:\s*([\w.>\-*()]+?)\s*\)')
+        while True:
+            m = pat.search(t)
+            if not m:
+                break
+            byref, var, cont = ('&' in m.group(2)) or bool(m.group(1)), m.group(3), m.group(4)
+            if cont.startswith('*'):
+                cont = '(' + cont + ')'
+            idx = 'vf_i_' + var
+            # body extent
+            k = m.end()
+            while t[k].isspace():
+                k += 1
+            if t[k] == '{':
+                e = match_close(strip_comments_keep_layout(t), k, '{', '}') + 1
+            else:
+                depth, e = 0, k
+                while not (t[e] == ';' and depth == 0):
+                    if t[e] in '([{':
+                        depth += 1
+                    elif t[e] in ')]}':
+                        depth -= 1
+                    e += 1
+                e += 1
+            hdr = 'for (size_t %s = 0; %s < %s.size; ++%s)' % (idx, idx, cont, idx)
+            if byref:
+                # reference (or const) loop variable: an alias of the element
+                body = re.sub(r'(?<![\w.>])' + var + r'\b', '(' + cont + '.data[' + idx + '])', t[m.end():e])
+            else:
+                # by-value loop variable: a copy of the element — writes do not reach the container
+                body = ' { __auto_type %s = %s.data[%s]; %s }' % (var, cont, idx, t[m.end():e])
+                self.log['R13.rangefor.copy'] = self.log.get('R13.rangefor.copy', 0) + 1
+            t = t[:m.start()] + hdr + body + t[e:]
+            self.log['R13.rangefor'] = self.log.get('R13.rangefor', 0) + 1
         return t
 
     def byval(self, t, names):
@@ -320,7 +358,7 @@ class Rewriter:
     def selfcalls(self, t, names, selfname='self'):
         for nme in names:
             t = self.sub('R6.selfcall', r'(?<![\w.>:])' + nme + r'\s*\(\s*\)', nme + '(' + selfname + ')', t)
-            t = self.sub('R6.selfcall', r'(?<![\w.>:])' + nme + r'\s*\((?!' + selfname + r'\b)', nme + '(' + selfname + ', ', t)
+            t = self.sub('R6.selfcall', r'(?<![\w.>:])' + nme + r'\s*\((?!' + selfname + r'\s*[,)])', nme + '(' + selfname + ', ', t)
         return t
 
 
